@@ -1,4 +1,6 @@
 pub mod mac;
 pub mod policy;
+pub mod router;
 pub mod text;
+pub mod topo;
 pub mod wire;
